@@ -26,7 +26,7 @@ try:
     open(p, 'w').write(s2)
     env = dict(os.environ, VERIF_REPO=dst, VERIF_SEED=a.seed, VERIF_EVIDENCE_DIR=os.path.join(d, 'ev'))
     r = subprocess.run(['/venv/bin/python', '/verif/run_check.py', a.prop, '--tier', a.tier], env=env,
-                       capture_output=True, text=True)
+                       capture_output=True, text=True, timeout=1500)
     tail = '\n'.join(r.stdout.strip().split('\n')[-6:])
     print(f'[{a.prop}] {a.file}: {a.old!r} -> {a.new!r}: exit {r.returncode}  ' + ('DETECTED' if r.returncode == 1 else 'MISSED' if r.returncode == 0 else 'ERROR'))
     print(tail)
